@@ -55,10 +55,10 @@ def specStatic (b : Beh) : List SNode → Env → St → Env × St
   | [], down, st => (down, st)
   | n :: rest, down, st =>
     let r := callStatic b n (n.ins.map down.rd) st
-    let down := down.set n.outs r.1
     if n.fallible && isErr (r.1.getD n.errIdx (zeroV 0)) then
-      (down.zero (laterOuts rest), r.2)
-    else specStatic b rest down r.2
+      -- the skipped injectors' types are zero; this injector's own results (its error) are visible
+      ((down.zero (laterOuts rest)).set n.outs r.1, r.2)
+    else specStatic b rest (down.set n.outs r.1) r.2
 
 structure SBound where
   base : Env
